@@ -96,6 +96,20 @@ func (p *Prog) unitsFor(prop string) []*ssa.Function {
 			out = append(out, fn)
 		}
 	}
+	// every function that stores to a field declared monotone for this property
+	seen := map[*ssa.Function]bool{}
+	for _, f := range out {
+		seen[f] = true
+	}
+	for _, f := range p.storesToMonotone(prop) {
+		if fc := p.contracts[f]; fc != nil && fc.Inline {
+			continue
+		}
+		if !seen[f] {
+			seen[f] = true
+			out = append(out, f)
+		}
+	}
 	sort.Slice(out, func(i, j int) bool { return fullKey(out[i]) < fullKey(out[j]) })
 	return out
 }
@@ -134,20 +148,43 @@ func cmdCheck(args []string) int {
 	}
 	opts := VerifyOpts{Safety: cfg.Safety, Locks: cfg.Locks, TimeoutS: timeout, Seed: seed, Smoke: true,
 		SafetyTags: []string{*prop}, LockTags: []string{*prop}}
-	results := make([]*FuncResult, len(units))
-	var wg sync.WaitGroup
-	sem := make(chan struct{}, 6)
-	for i, fn := range units {
-		i, fn := i, fn
-		wg.Add(1)
-		go func() {
-			defer wg.Done()
-			sem <- struct{}{}
-			defer func() { <-sem }()
-			results[i] = p.VerifyFunc(fn, opts)
-		}()
+	// roots plus, transitively, every callee whose contract a proof assumed (no proof rests on an unproved contract)
+	var results []*FuncResult
+	done := map[*ssa.Function]bool{}
+	roots := len(units)
+	work := units
+	for len(work) > 0 {
+		batch := make([]*FuncResult, len(work))
+		var wg sync.WaitGroup
+		sem := make(chan struct{}, 6)
+		for i, fn := range work {
+			done[fn] = true
+			i, fn := i, fn
+			wg.Add(1)
+			go func() {
+				defer wg.Done()
+				sem <- struct{}{}
+				defer func() { <-sem }()
+				batch[i] = p.VerifyFunc(fn, opts)
+			}()
+		}
+		wg.Wait()
+		results = append(results, batch...)
+		var next []*ssa.Function
+		for _, r := range batch {
+			for _, c := range r.Called {
+				if !done[c] {
+					if fc := p.contracts[c]; fc != nil && !fc.Trusted {
+						done[c] = true
+						next = append(next, c)
+					}
+				}
+			}
+		}
+		sort.Slice(next, func(i, j int) bool { return fullKey(next[i]) < fullKey(next[j]) })
+		work = next
 	}
-	wg.Wait()
+	sort.Slice(results, func(i, j int) bool { return results[i].Key < results[j].Key })
 	// lemmas tagged with the property
 	lemmaRes := p.checkLemmas(*prop, timeout, seed)
 
@@ -289,7 +326,7 @@ func cmdCheck(args []string) int {
 		"coverage": map[string]interface{}{
 			"obligations": obligations, "discharged": discharged,
 			"checker_cmd":  fmt.Sprintf("/verif/bin/kvc check -property %s -tier %s  (z3 4.8.12 | z3 5.1.0 | cvc5 1.0 raced per query, %ds limit)", *prop, *tier, timeout),
-			"trusted_base": trusted, "functions_under_contract": fnames, "functions": len(fnames),
+			"trusted_base": trusted, "functions_under_contract": fnames, "functions": len(fnames), "root_functions": roots,
 			"samples": samples, "backends": backends,
 			"vacuity":               map[string]int{"smoke_probes_run": smokeRun, "smoke_probes_provable": smokeBad},
 			"known_findings_matched": knownHit,
